@@ -109,6 +109,36 @@ impl Out {
     }
 }
 
+/// Records the largest single allocation request, so that decoding hostile bytes can be checked against the
+/// clause "without allocating more than a small multiple of the input" (C07).
+struct Recording;
+static MAX_REQUEST: std::sync::atomic::AtomicUsize = std::sync::atomic::AtomicUsize::new(0);
+unsafe impl std::alloc::GlobalAlloc for Recording {
+    unsafe fn alloc(&self, l: std::alloc::Layout) -> *mut u8 {
+        MAX_REQUEST.fetch_max(l.size(), std::sync::atomic::Ordering::Relaxed);
+        std::alloc::System.alloc(l)
+    }
+    unsafe fn dealloc(&self, p: *mut u8, l: std::alloc::Layout) {
+        std::alloc::System.dealloc(p, l)
+    }
+    unsafe fn alloc_zeroed(&self, l: std::alloc::Layout) -> *mut u8 {
+        MAX_REQUEST.fetch_max(l.size(), std::sync::atomic::Ordering::Relaxed);
+        std::alloc::System.alloc_zeroed(l)
+    }
+    unsafe fn realloc(&self, p: *mut u8, l: std::alloc::Layout, n: usize) -> *mut u8 {
+        MAX_REQUEST.fetch_max(n, std::sync::atomic::Ordering::Relaxed);
+        std::alloc::System.realloc(p, l, n)
+    }
+}
+#[global_allocator]
+static ALLOC: Recording = Recording;
+
+/// the largest request a decoder may make for `n` input bytes: every input byte can become one `Value` or one
+/// map slot (a few dozen bytes each, doubled by `Vec` / hash-table growth), plus room for small fixed buffers
+fn alloc_budget(n: usize) -> usize {
+    512 * n + 65_536
+}
+
 fn guarded<T>(out: &mut Out, what: &str, input: &str, f: impl FnOnce() -> T) -> Option<T> {
     match catch_unwind(AssertUnwindSafe(f)) {
         Ok(v) => Some(v),
@@ -183,6 +213,7 @@ fn rust_conv(out: &mut Out, from: Option<ProtocolVersion>, to: ProtocolVersion, 
 fn bytes_oracles(out: &mut Out, bs: &[u8]) {
     let h = hex(bs);
     let Some(sv) = sv_from_bytes(bs) else { return };
+    MAX_REQUEST.store(0, std::sync::atomic::Ordering::Relaxed);
     let dec = catch_unwind(AssertUnwindSafe(|| sv.deserialize_as_value()));
     let Ok(dec) = dec else {
         out.fail("C07", "panic in decode", &h);
@@ -193,6 +224,14 @@ fn bytes_oracles(out: &mut Out, bs: &[u8]) {
         out.fail("C07", "panic in skip", &h);
         return;
     };
+    // typed decoding of the scalar kinds that carry a length goes through its own code path
+    let _ = catch_unwind(AssertUnwindSafe(|| sv.deserialize::<String>().map(|s| s.len())));
+    let _ = catch_unwind(AssertUnwindSafe(|| sv.deserialize::<aldrin_core::Bytes>().map(|b| b.len())));
+    let biggest = MAX_REQUEST.load(std::sync::atomic::Ordering::Relaxed);
+    if biggest > alloc_budget(bs.len()) {
+        out.fail("C07", &format!("decoding / skipping {} bytes requested an allocation of {} bytes", bs.len(), biggest), &h);
+    }
+    out.count("bytes.alloc_checked");
     if let Ok(v) = &dec {
         out.count("bytes.decode_ok");
         // C07: whenever full decoding succeeds, skipping succeeds with exactly that length
@@ -404,6 +443,28 @@ fn mutate(rng: &mut Rng, bs: &[u8]) -> Vec<u8> {
     b
 }
 
+/// a value whose length prefix claims far more than follows: the kind byte of a length-carrying kind, a four-byte
+/// varint, a few bytes
+fn oversized(rng: &mut Rng) -> Vec<u8> {
+    let kind = *rng.pick(&[aldrin_core::ValueKind::String as u8, aldrin_core::ValueKind::Bytes1 as u8, aldrin_core::ValueKind::Vec1 as u8, aldrin_core::ValueKind::U8Map1 as u8,
+        aldrin_core::ValueKind::StringMap1 as u8, aldrin_core::ValueKind::StringSet1 as u8, aldrin_core::ValueKind::Struct1 as u8, aldrin_core::ValueKind::Bytes2 as u8]);
+    let mut b = vec![kind, *rng.pick(&[255u8, 254, 253])];
+    for _ in 0..4 {
+        b.push(rng.next() as u8);
+    }
+    let extra = rng.below(6);
+    for _ in 0..extra {
+        b.push(rng.next() as u8);
+    }
+    // sometimes nested one level down
+    if rng.chance(1, 3) {
+        let mut outer = vec![aldrin_core::ValueKind::Some as u8];
+        outer.extend(b);
+        return outer;
+    }
+    b
+}
+
 fn bytes_case(out: &mut Out, bs: &[u8]) {
     if bs.is_empty() || bs.len() > 200_000 {
         return;
@@ -489,7 +550,8 @@ fn main() {
             }
             6 => {
                 // large flat containers
-                let n = *r.pick(&[250usize, 260, 1000, 10_000]);
+                // element counts around the boundaries of the length varint (one byte up to 251, then 252..=255 announce 1..4 bytes)
+                let n = *r.pick(&[250usize, 251, 252, 253, 254, 255, 256, 257, 260, 1000, 10_000]);
                 let which = r.range(2, NUM_WRAP - 1);
                 let children = (0..n).map(|_| if r.chance(1, 2) { Value::None } else { Value::U8(r.next() as u8) }).collect();
                 let v = wrap(&mut r, which, children);
@@ -505,6 +567,11 @@ fn main() {
                 let m = mutate(&mut r, &base);
                 bytes_case(&mut out, &m);
                 out.count("gen.mutant");
+            }
+            _ if r.chance(1, 4) => {
+                let b = oversized(&mut r);
+                bytes_case(&mut out, &b);
+                out.count("gen.oversized_length");
             }
             _ => {
                 let n = r.range(1, 24) as usize;
